@@ -5,6 +5,7 @@ passes without it; then runs ./check <P> quick (and any extra checks) against th
 everything under /verif/seeded/<P>-<k>/ (patch.diff, demo.py, notes.md, meta.json)."""
 import json, os, shutil, subprocess, sys, time
 
+HERE = os.path.dirname(os.path.dirname(os.path.abspath(__file__)))  # the copy of /verif this tool runs from
 P, k = sys.argv[1], sys.argv[2]
 extra = sys.argv[3:]
 src = f"/tmp/seed_out/{P}/{k}"
@@ -56,7 +57,7 @@ try:
     meta["checks"] = {}
     for cid in [P] + extra:
         t0 = time.time()
-        c = sh(f"LIQUID_REPO={wt} ./check {cid} quick", cwd="/verif")
+        c = sh(f"LIQUID_REPO={wt} ./check {cid} quick", cwd=HERE)  # evidence of these runs lands in HERE, not /verif
         lines = [l for l in c.stdout.splitlines() if l.startswith("VIOLATION") or l.startswith("  signature=") or l.startswith("[") or l.startswith("HARNESS")]
         meta["checks"][cid] = {"exit": c.returncode, "caught": c.returncode == 1, "wall_s": round(time.time() - t0, 1),
                                "lines": lines[:7]}
